@@ -98,9 +98,10 @@ def split_native(line):
         mi = next((i for i in range(ni, len(toks)) if toks[i] == 'M'), len(toks))
         nat = toks[ni:mi]
         nat[0] = nat[0][4:]
-        nat = [t for t in nat if t != '']
+        ro = [t for t in nat if t.startswith('RO:')]   # request count of a read-only connection: s3db's
+        nat = [t for t in nat if t != '' and not t.startswith('RO:')]
         if toks and toks[0] in ('SA', 'SD'):
             nat = [toks[0]] + nat
-        s3 = toks[:ni] + toks[mi:]
+        s3 = toks[:ni] + toks[mi:] + ro
         kept.append(' '.join(s3)); pairs.append((s3, nat))
     return ' ; '.join(kept), pairs
